@@ -1,6 +1,6 @@
 (* Second driver of C20 (round 2): `_comment_out_toml` on the text.  Wire format: a case is
    the list of code points of the text, the answer the list of code points of the result.
-   Compiled from build/C20text so that model.ml lands there. *)
+   Compiled from build/C20Text so that model.ml lands there. *)
 From AwVerif Require Import Base.Prelude Base.Sexp Model.ConfigText.
 Require Extraction.
 Require Import ExtrOcamlBasic.
